@@ -337,7 +337,33 @@ class Result:
             self.violations.append({"what": what, "clause": clause, "input": case, "implementation": impl, "model": model,
                                     "finding_key": finding_key})
 
+    def remember(self, case, thunk, value, clause="independence of the call history", limit=120):
+        """register a call for the replay pass: `thunk()` made again at the end of the run, after all the other calls of this
+        run and in reverse order, must give `value` again (the model is a pure function of the input: an answer that depends
+        on what else the process has done is a disagreement with it)"""
+        self._remember_n = getattr(self, "_remember_n", 0) + 1
+        store = self.__dict__.setdefault("_remembered", [])
+        if len(store) < limit:
+            store.append((case, thunk, value, clause))
+        else:
+            # reservoir: keep the store a uniform sample of everything offered (deterministic)
+            j = (self._remember_n * 2654435761) % self._remember_n
+            if j < limit:
+                store[j] = (case, thunk, value, clause)
+
+    def replay(self):
+        for case, thunk, value, clause in reversed(self.__dict__.get("_remembered", [])):
+            try:
+                again = thunk()
+            except Exception as e:     # noqa: BLE001
+                again = "raised " + err_class(e)
+            self.count("replayed_calls")
+            if canon_json(again) != canon_json(value):
+                self.violation("the same call made again at the end of the run (after the other calls, in reverse order) gives a different answer",
+                               {"replayed": case}, impl=again, model=value, clause=clause)
+
     def done(self) -> dict:
+        self.replay()
         # smallest failing input first: it is the one reported and stored as replay
         self.violations.sort(key=lambda v: len(json.dumps(v.get("input"), default=str)))
         return {"evaluations": self.evaluations, "distinct_nontrivial": len(self.nontrivial), "rule": self.rule,
@@ -365,6 +391,10 @@ class Batch:
                 c(None)
             return
         answers = run_driver(self.ops)
+        for op, a in zip(self.ops, answers):
+            if isinstance(a, list) and a and a[0] == "bad-op":
+                # the driver does not know the operation / cannot decode it: harness and driver are out of step (infrastructure)
+                raise DriverError(f"driver answered bad-op for operation {op[0]!r}: {a}")
         for a, c in zip(answers, self.conts):
             c(a)
         self.ops, self.conts = [], []
